@@ -257,7 +257,12 @@ def rule_R3(ctx, f):
             be = b.bool_edges(c.target)
             if be and be[0] == c.result_term() and rejecting(b, be[1]):
                 # the set holds raw const names: some insert puts the const key itself (not a formatted string)
-                raw_const = container == P(4) or any((lambda ee: ee and peel(ee[0]) == P(4))(elem_of(peel(i.args[1]))) for i in ins)
+                def uncow(t_):
+                    t_ = peel(t_)
+                    if isinstance(t_, tuple) and t_ and t_[0] == "agg" and (t_[2].endswith("Cow::Borrowed") or t_[2].endswith("Cow::Owned")) and t_[3]:
+                        return peel(t_[3][0])
+                    return t_
+                raw_const = container == P(4) or any((lambda ee: ee and peel(ee[0]) == P(4))(elem_of(uncow(i.args[1]))) for i in ins)
                 cross = raw_const
                 site = c.span
                 for n in b.calls_to("Iterator::next"):
